@@ -923,8 +923,8 @@ func (c *control) dirInt(colon, at bool, params []any, base int) {
 		expanded = append(expanded, out[prev:]...)
 		out = expanded
 	}
-	if len(out) < mincol {
-		mincol -= len(out)
+	if cnt := utf8.RuneCount(out); cnt < mincol { // width is in characters
+		mincol -= cnt
 		for ; 0 < mincol; mincol-- {
 			c.out = append(c.out, padchar...)
 		}
@@ -1409,7 +1409,7 @@ func (c *control) dirAS(colon, at bool, params []any, p *slip.Printer) {
 	for ; 0 < minpad; minpad-- {
 		pad = append(pad, padchar...)
 	}
-	for len(out)+len(pad) < mincol {
+	for utf8.RuneCount(out)+utf8.RuneCount(pad) < mincol { // width is in characters
 		for i := colinc; 0 < i; i-- {
 			pad = append(pad, padchar...)
 		}
